@@ -152,7 +152,8 @@ func (s Slice) Interface() any {
 	for _, element := range s.value {
 		elementType = unionType(elementType, TypeOf(KindOf(element)))
 	}
-	if elementType == nil {
+	if elementType == nil || elementType.Kind() == reflect.Uint8 {
+		// a []uint8 would read back as a byte string, not as a list
 		elementType = types[KindUnknown]
 	}
 
